@@ -110,16 +110,33 @@ def gen(rng, knobs):
         first = [["send", json.dumps(["REQ", "x", f1])], ["send", json.dumps(["REQ", "x", f2])]]
         if rng.random() < 0.3:
             first.insert(1, ["send", json.dumps(["CLOSE", "x"])])
-        clients = [{"script": first, "slow": rng.random() < 0.8},
+        clients = [{"script": first, "slow": rng.random() < 0.9},
                    {"script": [["send", json.dumps(["EVENT", e])] for e in news], "slow": False}]
+        if rng.random() < 0.6:
+            # the publisher paces itself, so that acceptances spread over the moment of the replacement (and
+            # over whatever the replaced subscription still winds down afterwards)
+            paced = []
+            for it in clients[1]["script"]:
+                paced += [["wait", rng.choice([0.01, 0.03, 0.1, 0.3, 1.0])], it]
+            clients[1]["script"] = paced
         if rng.random() < 0.5:
             clients.append({"script": [["send", json.dumps(["REQ", "c", f2])]], "slow": False})
+    crowd = rng.random() < 0.02
+    if crowd:
+        # a long process lifetime: a crowd of connections each holding one subscription, then two events
+        clients = histgen.crowd(rng, h)
+        news = [h.regular(kind=1), h.regular(kind=1)]
+        clients.append({"script": [["barrier"]] + [["send", json.dumps(["EVENT", e])] for e in news], "late": True})
+        pre = []
     stall = {}
-    if rng.random() < (0.7 if len(pre) >= 6 else 0.15):
+    inflight = len(pre) >= 6
+    if rng.random() < (0.85 if inflight else 0.15):
         # one residue class of SQL connections is stalled (slow disk / busy worker thread)
-        m = rng.choice([2, 3, 3, 4])
-        stall = {"stall_mod": m, "stall_rem": rng.choice([0, 0, rng.randrange(m)]), "stall_scale": rng.choice([0.02, 0.1])}
+        m = rng.choice([2, 3, 3, 4]) if not inflight else rng.choice([3, 3, 4])
+        stall = {"stall_mod": m, "stall_rem": rng.choice([0, 0, rng.randrange(m)]) if not inflight else rng.choice([0, 0, 0, 0, 1]),
+                 "stall_scale": rng.choice([0.02, 0.1]) if not inflight else rng.choice([0.005, 0.02, 0.02, 0.1])}
     return {"backend": backend, "clients": clients, "preload": pre, "p_buffered": rng.choice([0.0, 0.0, 0.3, 0.8]),
+            **({"step_cap": 600000} if crowd else {}),
             "storage_opts": histgen.pool_knob(rng, backend),
             "sched": {**stall, "client": rng.choice([0.3, 1.0, 3.0]), "sql": rng.choice([0.2, 1.0, 3.0]),
                       "exec": rng.choice([0.1, 1.0, 3.0]), "writer": rng.choice([0.1, 1.0, 3.0]),
